@@ -220,7 +220,7 @@ class C05(Prop):
             cert = rng.choice([b"", b"PEM", b"-----BEGIN CERTIFICATE-----"])
             yield ["c05.complete", g, rng.randint(0, 1), [host, rng.choice([0, 1, 8080, 65535, 4294967295]), cert], suite]
         # scheduling through run()
-        n0 = 330 if quick else 2500
+        n0 = 600 if quick else 2500
         for i in range(n0):
             yield self.run_case(rng, 0, lockstep=(i % 4 != 3))
         for maxs in (1, 2, 3, 8):
